@@ -61,6 +61,26 @@ def job(j):
                 except Exception as e:
                     dec.append(-1)
             c["dec"] = dec
+            # decode_counts on a synthetic dictionary over the whole register (see Trace_Algo!CountsOK)
+            cnts = []
+            nq = c["nq"]
+            for v in sorted({0, 1, 2 ** n - 1, (2 ** n) // 2}):
+                if v >= 2 ** n:
+                    continue
+                low = "".join("1" if (v >> k) & 1 else "0" for k in reversed(range(n)))
+                if nq > n:
+                    keys = ["0" * (nq - n) + low, "1" + "0" * (nq - n - 1) + low]
+                    counts = {keys[0]: 5, keys[1]: 7}
+                else:
+                    counts = {low: 12}
+                for thr in (0, 10, 13):
+                    try:
+                        r = obj.decode_counts(dict(counts), discard_lower=thr) if thr else obj.decode_counts(dict(counts))
+                        res = [[(1 if k == "Constant" else 0) if kind == "dj" else jval(k, argT), int(x)] for k, x in r.items()]
+                    except Exception as e:
+                        res = [[-1, -1]]
+                    cnts.append({"v": v, "thr": thr, "res": res})
+            c["cnts"] = cnts
             if c["nq"] > 14:
                 c["status"] = "too-many-qubits"
         except _TO:
